@@ -503,18 +503,56 @@ func (w *world) cappedCase(rounds int) {
 					b.Deposits = append(b.Deposits, &lib.DexLiquidityDeposit{Amount: amt/2 + 1, Address: a, OrderId: w.freshID()})
 				}
 			}
-			w.dexbatch("R", 2, false, b)
+			_, before, after := w.dexbatch("R", 2, false, b)
 			w.o.Count("capped:remote-deposit-batch")
+			w.cappedCoverage(before, after, b.Deposits)
 		} else {
 			// local side: users deposit, the batch locks, the counter chain answers with the matching hash
 			for i := 1 + w.r.Intn(4); i > 0; i-- {
 				w.deposit("R", 2, w.addr(), uint64(1+w.r.Int63n(1<<uint(10+w.r.Intn(30)))), w.freshID())
 			}
-			w.dexbatch("R", 2, false, &lib.DexBatch{Committee: 1, PoolSize: uint64(1_000_000 + w.r.Int63n(1<<40))})
+			_, before, after := w.dexbatch("R", 2, false, &lib.DexBatch{Committee: 1, PoolSize: uint64(1_000_000 + w.r.Int63n(1<<40))})
 			w.o.Count("capped:local-deposit-batch")
+			if lb := before.Locked[2]; lb != nil {
+				w.cappedCoverage(before, after, lb.Deposits)
+			}
 		}
 		if w.r.Intn(3) == 0 {
 			w.endblock("R")
+		}
+	}
+}
+
+// cappedCoverage classifies, from the real state only, what a deposit batch did to the provider table.
+func (w *world) cappedCoverage(before, after *Snapshot, deps []*lib.DexLiquidityDeposit) {
+	pb, pa := before.pool(2+liquidityAdd), after.pool(2+liquidityAdd)
+	has := func(p *fsm.Pool, a []byte) bool {
+		for _, x := range p.Points {
+			if string(x.Address) == string(a) {
+				return true
+			}
+		}
+		return false
+	}
+	if len(pa.Points) == lib.MaxLiquidityProviders {
+		w.o.Count("capped:table-full")
+	}
+	for _, x := range pb.Points {
+		if !has(pa, x.Address) {
+			w.o.Count("capped:provider-evicted")
+		}
+	}
+	seen := map[string]bool{}
+	for _, d := range deps {
+		if seen[string(d.Address)] || d.Amount == 0 {
+			continue
+		}
+		seen[string(d.Address)] = true
+		switch {
+		case !has(pb, d.Address) && has(pa, d.Address):
+			w.o.Count("capped:newcomer-admitted")
+		case !has(pb, d.Address) && !has(pa, d.Address):
+			w.o.Count("capped:newcomer-rejected")
 		}
 	}
 }
